@@ -44,6 +44,7 @@ type wScreen struct {
 	clear        bool
 	flagsPresent bool
 	pasteEnabled bool
+	focusEnabled bool
 	mouseFlags   MouseFlags
 
 	cursorStyle CursorStyle
@@ -71,6 +72,7 @@ func (t *wScreen) Init() error {
 	js.Global().Set("onMouseClick", js.FuncOf(t.unset))
 	js.Global().Set("onMouseMove", js.FuncOf(t.unset))
 	js.Global().Set("onFocus", js.FuncOf(t.unset))
+	js.Global().Set("onPaste", js.FuncOf(t.unset)) // the page calls it, enabled or not
 
 	return nil
 }
@@ -218,7 +220,10 @@ func (t *wScreen) EnableMouse(flags ...MouseFlags) {
 
 	t.Lock()
 	t.mouseFlags = f
-	t.enableMouse(f)
+	if t.running {
+		// (a suspended screen takes no input; Resume installs what is enabled)
+		t.enableMouse(f)
+	}
 	t.Unlock()
 }
 
@@ -246,7 +251,9 @@ func (t *wScreen) DisableMouse() {
 func (t *wScreen) EnablePaste() {
 	t.Lock()
 	t.pasteEnabled = true
-	t.enablePasting(true)
+	if t.running {
+		t.enablePasting(true)
+	}
 	t.Unlock()
 }
 
@@ -267,12 +274,16 @@ func (t *wScreen) enablePasting(on bool) {
 
 func (t *wScreen) EnableFocus() {
 	t.Lock()
-	js.Global().Set("onFocus", js.FuncOf(t.onFocus))
+	t.focusEnabled = true
+	if t.running {
+		js.Global().Set("onFocus", js.FuncOf(t.onFocus))
+	}
 	t.Unlock()
 }
 
 func (t *wScreen) DisableFocus() {
 	t.Lock()
+	t.focusEnabled = false
 	js.Global().Set("onFocus", js.FuncOf(t.unset))
 	t.Unlock()
 }
@@ -491,6 +502,7 @@ func (t *wScreen) Suspend() error {
 	t.clearScreen()
 	t.enableMouse(0)
 	t.enablePasting(false)
+	js.Global().Set("onFocus", js.FuncOf(t.unset))
 	js.Global().Set("onKeyEvent", js.FuncOf(t.unset)) // stop keypresses
 	t.Unlock()
 	return nil
@@ -507,6 +519,9 @@ func (t *wScreen) Resume() error {
 
 	t.enableMouse(t.mouseFlags)
 	t.enablePasting(t.pasteEnabled)
+	if t.focusEnabled {
+		js.Global().Set("onFocus", js.FuncOf(t.onFocus))
+	}
 
 	js.Global().Set("onKeyEvent", js.FuncOf(t.onKeyEvent))
 
